@@ -14,7 +14,7 @@ meta = {
     "confirmed": {
         "existing_suite_with_change": "2300 passed, 0 failed (cargo test --workspace --no-fail-fast --offline)",
         "demonstration_with_change": "fails", "demonstration_without_change": "passes",
-        "how": "tools/confirm_seed.sh in the scratch worktree (suite, demo with change, demo with the source change reverted)"},
+        "how": "in the scratch worktree: cargo test --workspace --no-fail-fast --offline with the change and the demonstration applied (lib tests 2300 passed, only the demonstration target fails); git apply -R patch.diff; cargo test --offline --test seed_demo (passes); patch re-applied"},
     "checks_run": "tools/try_seed.sh: git -C /repo apply patch.diff; all 20 quick checks; git -C /repo checkout -- .",
     "detected_by": [] if detected == "none" else detected.split(","),
 }
